@@ -90,3 +90,17 @@ package writecache
 //@   property C43
 //@   ensures [recorded_mode_is_the_new_one_on_success] err == nil ==> c.mode == m
 //@   ensures [recorded_mode_unchanged_on_failure] err != nil ==> c.mode == old(c.mode)
+
+// ---- C15: a flush drops the cached copy of an object only after the main storage accepted
+// its bytes (a crash between the two steps leaves two copies, never none).
+//@ ghost pred flushedToStorage() bool
+//@ callrule c15_flush_data_step in (*cache).flushSingle, (*cache).flushBatch
+//@   property C15
+//@   callee (writecache.stor).Put, (writecache.stor).PutBatch
+//@   pureeffect
+//@   defines err == nil ==> flushedToStorage()
+//@ callrule c15_cached_copy_dropped_after_flush in (*cache).flushSingle, (*cache).flushBatch
+//@   property C15
+//@   callee (*writecache.cache).delete
+//@   pureeffect
+//@   requires [cached_copy_dropped_only_after_storage_accepted_it] flushedToStorage()
